@@ -1,0 +1,142 @@
+//go:build verif
+
+// Verification hooks for the face layer (add-only; compiled only with -tags verif).
+// Exports wrappers around unexported receive/send path functions and an in-memory transport.
+// No behaviour of the package is changed.
+
+package face
+
+import (
+	"io"
+	"sort"
+
+	defn "github.com/named-data/ndnd/fw/defn"
+	"github.com/named-data/ndnd/fw/dispatch"
+)
+
+// VerifReadTlvStream runs the real stream framer on the supplied reader.
+func VerifReadTlvStream(reader io.Reader, onFrame func([]byte), ignoreError func(error) bool) error {
+	return readTlvStream(reader, onFrame, ignoreError)
+}
+
+// VerifFaceConsts returns the package constants used by the link service, and the header overhead
+// computed by the real computeHeaderOverhead for the four (fragmentation, incoming-face-indication) settings.
+func VerifFaceConsts() map[string]int {
+	m := map[string]int{
+		"MaxNDNPacketSize":       defn.MaxNDNPacketSize,
+		"lpPacketOverhead":       lpPacketOverhead,
+		"pitTokenOverhead":       pitTokenOverhead,
+		"congestionMarkOverhead": congestionMarkOverhead,
+	}
+	for _, frag := range []bool{false, true} {
+		for _, ifi := range []bool{false, true} {
+			l := &NDNLPLinkService{}
+			l.options.IsFragmentationEnabled = frag
+			l.options.IsIncomingFaceIndicationEnabled = ifi
+			l.computeHeaderOverhead()
+			k := "headerOverhead_"
+			if frag {
+				k += "frag"
+			} else {
+				k += "nofrag"
+			}
+			if ifi {
+				k += "_ifi"
+			} else {
+				k += "_noifi"
+			}
+			m[k] = l.headerOverhead
+		}
+	}
+	return m
+}
+
+// VerifTransport is an in-memory transport: it records every frame handed to sendFrame.
+// Like the socket transports it refuses frames larger than the MTU (recorded in Dropped).
+type VerifTransport struct {
+	transportBase
+	Frames  [][]byte // frames accepted (len <= MTU), copies
+	Dropped [][]byte // frames refused because len > MTU, copies
+}
+
+// NewVerifTransport makes an in-memory transport with the given MTU and scope.
+func NewVerifTransport(mtu int, scope defn.Scope) *VerifTransport {
+	t := &VerifTransport{}
+	t.makeTransportBase(defn.MakeNullFaceURI(), defn.MakeNullFaceURI(), PersistencyPermanent, scope, defn.PointToPoint, mtu)
+	t.running.Store(true)
+	return t
+}
+
+func (t *VerifTransport) String() string                 { return "VerifTransport" }
+func (t *VerifTransport) SetPersistency(Persistency) bool { return true }
+func (t *VerifTransport) GetSendQueueSize() uint64        { return 0 }
+func (t *VerifTransport) runReceive()                     {}
+func (t *VerifTransport) Close()                          { t.running.Store(false) }
+
+func (t *VerifTransport) sendFrame(frame []byte) {
+	c := make([]byte, len(frame))
+	copy(c, frame)
+	if len(frame) > t.MTU() {
+		t.Dropped = append(t.Dropped, c)
+		return
+	}
+	t.nOutBytes += uint64(len(frame))
+	t.Frames = append(t.Frames, c)
+}
+
+// Reset forgets recorded frames.
+func (t *VerifTransport) Reset() { t.Frames, t.Dropped = nil, nil }
+
+// VerifMakeLinkService builds a real NDNLPLinkService on the in-memory transport (no goroutines, no sockets).
+func VerifMakeLinkService(t *VerifTransport, options NDNLPLinkServiceOptions, faceID uint64) *NDNLPLinkService {
+	if faceQueueSize == 0 {
+		faceQueueSize = 16
+	}
+	l := MakeNDNLPLinkService(t, options)
+	l.SetFaceID(faceID)
+	return l
+}
+
+// VerifSendPacket calls the real sendPacket synchronously.
+func VerifSendPacket(l *NDNLPLinkService, out dispatch.OutPkt) { sendPacket(l, out) }
+
+// VerifHandleIncomingFrame calls the real handleIncomingFrame synchronously.
+func VerifHandleIncomingFrame(l *NDNLPLinkService, frame []byte) { l.handleIncomingFrame(frame) }
+
+// VerifSetNextSequence sets the send-side fragment sequence counter (to exercise wrap-around).
+func VerifSetNextSequence(l *NDNLPLinkService, v uint64) { l.nextSequence = v }
+
+// VerifNextSequence reads the send-side fragment sequence counter.
+func VerifNextSequence(l *NDNLPLinkService) uint64 { return l.nextSequence }
+
+// VerifSetCongestionMarking sets the package-level congestion marking switch and returns the old value.
+func VerifSetCongestionMarking(on bool) bool {
+	old := congestionMarking
+	congestionMarking = on
+	return old
+}
+
+// VerifPartialSlot describes one entry of the partial message store.
+type VerifPartialSlot struct {
+	Base  uint64
+	Slots []int // length of the fragment stored in each slot (0 = empty)
+}
+
+// VerifPartialStore dumps the partial message store sorted by base sequence.
+func VerifPartialStore(l *NDNLPLinkService) []VerifPartialSlot {
+	res := make([]VerifPartialSlot, 0, len(l.partialMessageStore))
+	for k, v := range l.partialMessageStore {
+		s := VerifPartialSlot{Base: k, Slots: make([]int, len(v))}
+		for i, f := range v {
+			s.Slots[i] = len(f)
+		}
+		res = append(res, s)
+	}
+	sort.Slice(res, func(i, j int) bool { return res[i].Base < res[j].Base })
+	return res
+}
+
+// VerifCounters returns (nInInterests, nInData, nOutInterests, nOutData).
+func VerifCounters(l *NDNLPLinkService) [4]uint64 {
+	return [4]uint64{l.nInInterests, l.nInData, l.nOutInterests, l.nOutData}
+}
